@@ -84,11 +84,11 @@ theorem arm_log (nl : ℚ → Ext) (A : AMat ℚ n) :
 /-! ### the link theorems -/
 
 theorem ir_of_ok (ir : FloydIR) (hok : floydOk ir = true) : ir = refIR := by
-  obtain ⟨r, p, t, df, d, i, lv, lb, b, e, rt⟩ := ir
+  obtain ⟨r, p, t, df, og, d, i, lv, lb, b, e, rt⟩ := ir
   simp only [floydOk, Bool.and_eq_true, beq_iff_eq] at hok
-  obtain ⟨⟨⟨⟨⟨⟨⟨⟨⟨⟨h1, h2⟩, h3⟩, h3'⟩, h4⟩, h5⟩, h6⟩, h7⟩, h8⟩, h9⟩, h10⟩ := hok
+  obtain ⟨⟨⟨⟨⟨⟨⟨⟨⟨⟨⟨h1, h2⟩, h3⟩, h3'⟩, h3''⟩, h4⟩, h5⟩, h6⟩, h7⟩, h8⟩, h9⟩, h10⟩ := hok
   simp only [refIR]
-  subst h1 h2 h3 h3' h4 h5 h6 h7 h8 h9 h10
+  subst h1 h2 h3 h3' h3'' h4 h5 h6 h7 h8 h9 h10
   rfl
 
 /-- **Link, one stage.**  If the generated obligation holds, the extracted body of `for k in range(n)`, executed by
